@@ -172,6 +172,20 @@ fn c18_spice(rng: &mut Rng, def: &mut Definition) {
     }
 }
 
+/// One unbroken piece of more than 192 units (the heap merge strategy of the byte-pair encoder): a run
+/// over a small alphabet with a word-like tail.
+pub fn long_piece(rng: &mut Rng) -> String {
+    let alphabet: &[char] = *rng.pick(&[&['a'][..], &['a', 'b'][..], &['a', 'b', 'c'][..], &['a', 'b', 'é'][..], &['x', 'ß', '語'][..]]);
+    let n = rng.range(193, 330);
+    let mut s: String = if rng.chance(1, 2) { std::iter::repeat(alphabet[0]).take(n).collect() } else { (0..n).map(|_| *rng.pick(alphabet)).collect() };
+    s.push_str(*rng.pick(&["", "ing", "ab", "abc", "ba", "tion", "é", "b"]));
+    s
+}
+
+pub fn text_for_pub(rng: &mut Rng, def: &Definition) -> String {
+    text_for_wide(rng, def, true, true)
+}
+
 fn text_for(rng: &mut Rng, def: &Definition, alphabet_bias: bool) -> String {
     text_for_wide(rng, def, alphabet_bias, false)
 }
@@ -334,6 +348,10 @@ pub fn gen(prop: &str, rng: &mut Rng, thorough: bool, out: &mut Sink) {
         let stripped = if prop == "C09" { guarded(|| Kitoken::from_definition(strip_for_ref(&tk.def)).ok()).flatten() } else { None };
         for _ in 0..ntexts {
             let mut text = text_for_wide(rng, &tk.def, true, prop == "C18");
+            if rng.chance(1, 8) {
+                text = long_piece(rng);
+                out.count("long_single_piece_texts");
+            }
             if prop == "C01" {
                 // the marker character itself is excluded by the property for marker-normalizing tokenizers
                 text = text.replace('▁', "_");
@@ -379,8 +397,27 @@ pub fn gen(prop: &str, rng: &mut Rng, thorough: bool, out: &mut Sink) {
         let tk = load(slot, &name, def, &mut lines);
         slot += 1;
         let stripped = if prop == "C09" { guarded(|| Kitoken::from_definition(strip_for_ref(&tk.def)).ok()).flatten() } else { None };
+        if prop == "C01" {
+            // witness of known finding F21: two adjacent copies of a special whose id the declared
+            // post-processing collapses
+            for p in &tk.def.config.processing {
+                if let Processing::Collapse { id } = p {
+                    if let Some(sp) = tk.def.specials.iter().find(|s| s.id == *id && s.kind != SpecialTokenKind::Control) {
+                        let t = String::from_utf8_lossy(&sp.bytes).to_string();
+                        if let Some(l) = rt_line(&tk, &format!("a{}{}b", t, t), false) {
+                            lines.push(l);
+                            out.count("adjacent_collapsed_special_witness");
+                        }
+                    }
+                }
+            }
+        }
         for k in 0..nship {
             let mut text = match k % 4 {
+                0 if k % 16 == 0 => {
+                    out.count("long_single_piece_texts");
+                    long_piece(rng)
+                }
                 0 if !corpus.is_empty() => rng.pick(&corpus).clone(),
                 1 => text_for(rng, &tk.def, false),
                 2 => random_scalar(rng).to_string(),
